@@ -26,15 +26,22 @@ request = Request('http://example.com/page.html')
 response = Response(200, 'OK')
 response.fields['Content-Type'] = 'text/html'
 response.body = Body(io.BytesIO(page))
-info = scrapers.scrape_info(request, response)
-followed = set()
-for scraper, result in info.items():
-    if result:
-        links = sorted(c.link for c in result.link_contexts if c.linked)
-        print('%-18s linked: %s' % (type(scraper).__name__, links))
-        # what ProcessingRule.scrape_document queues: every result, unless a result of the same page said nofollow
-        followed.update(links)
-no_follow = any(r and r.get('robots_no_follow') for r in info.values())
-print('page declared nofollow (shared by the results):', no_follow)
-bad = [l for l in followed if l.endswith('/drafts/next.html')] if not no_follow else []
+from wpull.processor.rule import ProcessingRule           # noqa: E402
+import types
+
+
+class AcceptAll:
+    def consult_filters(self, url_info, url_record, is_redirect=False):
+        return True, 'filters', {}
+
+
+queued = []
+item = types.SimpleNamespace(
+    request=request, response=response, url_record=types.SimpleNamespace(link_type=None),
+    child_url_record=lambda url, inline=False, **k: types.SimpleNamespace(url=url, inline=inline),
+    add_child_url=lambda url, inline=False, **k: queued.append((url, 'inline' if inline else 'linked')))
+rule = ProcessingRule(AcceptAll(), document_scraper=scrapers)
+rule.scrape_document(item)
+print('queued by ProcessingRule.scrape_document:', sorted(queued))
+bad = [u for u, kind in queued if u.endswith('/drafts/next.html')]
 print('NOFOLLOW PAGE CONTRIBUTES A FOLLOWED LINK' if bad else 'nofollow honoured')
